@@ -28,6 +28,11 @@ EXTENDS ParamRoutingOps, Json, IOUtils, TLC
 TraceLog == ndJsonDeserialize(IOEnv.TRACE_FILE)
 VARIABLE l
 
+(* 2e-3 in the log-likelihood: scipy's simplex optimiser stops at xtol = ftol = 1e-4, which     *)
+(* leaves the log-likelihood of 250..900 observations within ~1e-4 of its maximum; a 1 % change   *)
+(* of an identified parameter lowers it by ~ n * 1e-4 * (relative Fisher information) / 2 >= 1e-2. *)
+LlTolE6 == 2000
+
 FitClauses(r) ==
   LET F == Range(r.F) spec == FitOutcome(r.fam, r.fitm, F) IN
   IF r.exc # "" THEN << <<"UnexpectedException", FALSE>> >>
@@ -37,9 +42,17 @@ FitClauses(r) ==
     <<"EvalUsesFixed", r.evalsame /\ r.evalkeep>>,
     <<"FitOutcomeAsSpecified", r.outcome1 = spec /\ r.outcome2 = spec>>,
     <<"FixedStable", r.fdev1 <= FixedTolE15 /\ r.fdev2 <= FixedTolE15>>,
+    (* "estimated" = moved, finite, and - for maximum likelihood - a maximiser of the constrained  *)
+    (* likelihood: the log-likelihood at the fit (llgen / llpert: differences in 1e-6, 2e9 = not     *)
+    (* applicable) is not lower than at the generating parameters, which satisfy the constraints     *)
+    (* (own-family data are drawn with the fixed parameters at their fixed values), nor at + / - 1 %  *)
+    (* of any free parameter, up to LlTolE6.  Not applicable (2e9) while a parameter that moves the   *)
+    (* support boundary is free (Weibull gamma, Scipy loc, beta scale), for lsq/wlsq and for the       *)
+    (* scipy-vonmises subclass; for the norm-fit log-normal llpert = 0 iff the free parameters are     *)
+    (* exactly the sample mean / sample standard deviation (the estimator that defines the family)     *)
     <<"FreeEstimated",
-        /\ (r.outcome1 = "ok" => r.free1changed /\ r.free1finite)
-        /\ (r.outcome2 = "ok" => r.free2changed /\ r.free2finite)>>,
+        /\ (r.outcome1 = "ok" => r.free1changed /\ r.free1finite /\ r.llgen1 >= -LlTolE6 /\ r.llpert1 >= -LlTolE6)
+        /\ (r.outcome2 = "ok" => r.free2changed /\ r.free2finite /\ r.llgen2 >= -LlTolE6 /\ r.llpert2 >= -LlTolE6)>>,
     (* ParamRoutingHist!InstancesShareNoState: the life cycle run at two positions of two       *)
     (* shuffled sequential runs of ALL life cycles in one process reproduces the outcomes and    *)
     (* the fitted parameters of its own run bit for bit                                          *)
